@@ -914,6 +914,7 @@ public:
    {
       const uint32 numElements = unflat.ReadInt32();
       MRETURN_ON_ERROR(unflat.GetStatus());
+      if (numElements > (unflat.GetNumBytesAvailable()/sizeof(uint32))) return B_BAD_DATA;  // each element needs at least its length-prefix, so this count can't be right
 
       this->Clear(false);
       MRETURN_ON_ERROR(this->_data.EnsureSize(numElements, true));
